@@ -24,6 +24,8 @@ import (
 
 	"pgregory.net/rapid"
 
+	"verif/internal/fix"
+	"verif/internal/gen"
 	"verif/internal/hx"
 	"verif/internal/pgprog"
 	"verif/internal/pgsess"
@@ -42,17 +44,40 @@ type Row struct {
 	P string     `json:"p"`
 	N int        `json:"n"`
 	W string     `json:"w,omitempty"` // component layers: write entry point that produced the stored value
+	// Like, when set, describes the plaintext instead of S: a value that is shaped like a stored searchable value
+	// (0x7f + 32 bytes, then exactly one serialized envelope). It is built when the case is checked (see resolve)
+	Like *Like `json:"like,omitempty"`
 }
 
-// URow is one row of the joined table u(id, ref, tag).
+// Like is a plaintext that looks like what acra itself stores in a searchable column: <index><envelope>.
+// The index is 0x7f||HMAC-SHA256(key(HashBy), HashOf) or 0x7f||RawHash; the envelope holds EnvOf for client EnvBy.
+type Like struct {
+	HashOf  gen.Hex `json:"hash_of,omitempty"`
+	HashBy  string  `json:"hash_by,omitempty"` // "" = the column's key owner
+	RawHash gen.Hex `json:"raw_hash,omitempty"`
+	EnvOf   gen.Hex `json:"env_of,omitempty"`
+	EnvBy   string  `json:"env_by,omitempty"` // "" = the column's key owner
+	EnvKind string  `json:"env_kind"`         // acrastruct | acrablock
+	Bare    bool    `json:"bare,omitempty"`   // bare envelope instead of the serialized container
+	Shape   string  `json:"shape,omitempty"`  // generator's intention: copy | splice | foreign | index-then-bytes
+	// Tail (when EnvOf is empty): arbitrary bytes follow the index-like prefix instead of an envelope
+	Tail gen.Hex `json:"tail,omitempty"`
+}
+
+// URow is one row of the joined table u(id, ref, tag[, s]).
 type URow struct {
 	Ref int    `json:"ref"`
 	Tag string `json:"tag"`
+	// S is the value of u.s when the joined table has a column named like the searchable one (Case.UCol)
+	S *pgprog.Val `json:"s,omitempty"`
+	W string      `json:"w,omitempty"`
 }
 
 // Cond is a WHERE condition.
 type Cond struct {
-	K string `json:"k"` // "s" comparison on the searchable column | "plain" | "and" | "or" | "not"
+	// "s" comparison on the searchable column | "plain" | "and" | "or" | "not" | "ss": t.s <op> u.s (both searchable
+	// columns of one key owner; Flip: u.s <op> t.s)
+	K string `json:"k"`
 	// K == "s"
 	Neg   bool       `json:"neg,omitempty"`   // <> instead of =
 	Bang  bool       `json:"bang,omitempty"`  // spelled !=
@@ -61,6 +86,10 @@ type Cond struct {
 	Spell int        `json:"spell,omitempty"` // literal spelling
 	Val   pgprog.Val `json:"val,omitempty"`
 	Probe string     `json:"probe,omitempty"` // generator's intention: present | absent | prefix | empty
+	// Tab "u": the comparison is on the same-named column s of the joined table u (Case.UCol), "" on t.s
+	Tab string `json:"tab,omitempty"`
+	// Ref > 0: the searched value is the plaintext of row Ref of table t (used for rows described by Like)
+	Ref int `json:"ref,omitempty"`
 	// K == "plain": <Col> <Op> <Arg> on a plain column (id, p, n, tag); PForm "" literal | ptext | pbin
 	Col   string `json:"col,omitempty"`
 	Op    string `json:"op,omitempty"`
@@ -74,9 +103,14 @@ type Query struct {
 	Alias   bool `json:"alias,omitempty"`   // FROM t AS q, columns written q.col
 	Qualify bool `json:"qualify,omitempty"` // columns written t.col
 	Join    bool `json:"join,omitempty"`    // FROM t JOIN u ON t.id = u.ref
-	// Sub (MySQL rewrite layer only): the statement is wrapped as SELECT id, s FROM t WHERE id IN (SELECT id FROM t ... WHERE cond)
-	Sub bool `json:"sub,omitempty"`
-	Where   Cond `json:"where"`
+	// Sub: the statement is wrapped as SELECT id, s FROM t WHERE id IN (SELECT id FROM t ... WHERE cond)
+	Sub   bool `json:"sub,omitempty"`
+	Where Cond `json:"where"`
+	// joins: JOIN u AS v; ON u.ref = t.id instead of t.id = u.ref; a further condition inside the ON clause
+	UAlias bool  `json:"u_alias,omitempty"`
+	Comma  bool  `json:"comma,omitempty"` // FROM t, u WHERE t.id = u.ref AND (...) instead of JOIN .. ON
+	OnFlip bool  `json:"on_flip,omitempty"`
+	On     *Cond `json:"on,omitempty"`
 	// sessions
 	Ext       bool   `json:"ext,omitempty"`
 	ResultFmt int16  `json:"result_fmt,omitempty"`
@@ -100,19 +134,40 @@ type Ins struct {
 type Case struct {
 	Col   pgprog.ColSpec `json:"col"`
 	UConf bool           `json:"u_configured,omitempty"` // table u appears in the encryptor configuration
-	Rows  []Row          `json:"rows"`
-	U     []URow         `json:"u,omitempty"`
-	Q     Query          `json:"q"`
-	Ins   []Ins          `json:"ins,omitempty"`
-	Swap  []int          `json:"swap,omitempty"` // session layer: two row positions whose hashes get swapped
+	// UCol: the joined table u has a column named s as well: a plain column, or a searchable one of the same or of
+	// another key owner (nil: u has no such column)
+	UCol *pgprog.ColSpec `json:"u_col,omitempty"`
+	Rows []Row           `json:"rows"`
+	U    []URow          `json:"u,omitempty"`
+	Q    Query           `json:"q"`
+	Ins  []Ins           `json:"ins,omitempty"`
+	Swap []int           `json:"swap,omitempty"` // session layer: two row positions whose hashes get swapped
+
+	resolved bool
 }
 
 func tables(c Case) []pgprog.TableSpec {
+	ucols := []pgprog.ColSpec{{Name: "id", Kind: pgprog.KPlainInt}, {Name: "ref", Kind: pgprog.KPlainInt}, {Name: "tag", Kind: pgprog.KPlainText}}
+	if c.UCol != nil {
+		uc := *c.UCol
+		uc.Name = "s"
+		if uc.Kind == pgprog.KSearch && !c.UConf {
+			// a table that is not configured holds plain values whatever the case says about its column
+			uc = pgprog.ColSpec{Name: "s", Kind: plainKindOf(c.Col.Logical())}
+		}
+		ucols = append(ucols, uc)
+	}
 	return []pgprog.TableSpec{
 		{Name: "t", Configured: true, Cols: []pgprog.ColSpec{{Name: "id", Kind: pgprog.KPlainInt}, c.Col, {Name: "p", Kind: pgprog.KPlainText}, {Name: "n", Kind: pgprog.KPlainInt}}},
-		{Name: "u", Configured: c.UConf, Cols: []pgprog.ColSpec{{Name: "id", Kind: pgprog.KPlainInt}, {Name: "ref", Kind: pgprog.KPlainInt}, {Name: "tag", Kind: pgprog.KPlainText}}},
+		{Name: "u", Configured: c.UConf, Cols: ucols},
 	}
 }
+
+// uSearch: u.s exists and is a searchable column (its table is in the configuration then).
+func (c Case) uSearch() bool { return c.UCol != nil && c.UCol.Kind == pgprog.KSearch && c.UConf }
+
+// uPlain: u.s exists and holds its values as they are.
+func (c Case) uPlain() bool { return c.UCol != nil && !c.uSearch() }
 
 // ---------------------------------------------------------------------------------------------
 // generators
@@ -229,6 +284,139 @@ func genCol(t *rapid.T) pgprog.ColSpec {
 	return c
 }
 
+func plainKindOf(lt pgsess.ColType) string {
+	switch lt {
+	case pgsess.Bytea:
+		return pgprog.KPlainBytea
+	case pgsess.Int4:
+		return pgprog.KPlainInt
+	}
+	return pgprog.KPlainText
+}
+
+// genLike describes a plaintext shaped like a stored searchable value: copy = the stored form of another plaintext
+// of the column (as read raw from the database), splice = the index of one plaintext in front of the envelope of
+// another, foreign = an index-like prefix in front of an envelope made for another client.
+func genLike(t *rapid.T, c Case, lt pgsess.ColType, pool []pgprog.Val, label string) *Like {
+	pick := func(l string) gen.Hex {
+		if rapid.IntRange(0, 3).Draw(t, l+".fresh") == 0 {
+			return gen.Hex(genBase(t, lt, l).B)
+		}
+		return append(gen.Hex{}, pool[rapid.IntRange(0, len(pool)-1).Draw(t, l+".pick")].B...)
+	}
+	lk := &Like{Shape: rapid.SampledFrom([]string{"copy", "splice", "splice", "foreign", "index-then-bytes"}).Draw(t, label+".shape")}
+	if lk.Shape == "index-then-bytes" {
+		// the index of a plaintext of the column (or 32 arbitrary bytes) followed by something that is no envelope
+		if rapid.Bool().Draw(t, label+".rawhash") {
+			lk.RawHash = rapid.SliceOfN(rapid.Byte(), 32, 32).Draw(t, label+".raw")
+		} else {
+			lk.HashOf = pick(label + ".hash")
+		}
+		lk.Tail = rapid.OneOf(rapid.Just([]byte(nil)), rapid.SliceOfN(rapid.Byte(), 1, 40), rapid.Just([]byte(`%%%""""""""`))).Draw(t, label+".tail")
+		return lk
+	}
+	lk.EnvKind = rapid.SampledFrom(fix.Kinds).Draw(t, label+".envkind")
+	lk.Bare = rapid.IntRange(0, 3).Draw(t, label+".bare") == 0
+	lk.EnvOf = pick(label + ".env")
+	switch lk.Shape {
+	case "copy":
+		lk.HashOf = append(gen.Hex{}, lk.EnvOf...)
+	case "splice":
+		lk.HashOf = pick(label + ".hash")
+	case "foreign":
+		lk.EnvBy = "bobby"
+		if c.Col.ClientID == "bobby" {
+			lk.EnvBy = "alice"
+		}
+		if rapid.Bool().Draw(t, label+".rawhash") {
+			lk.RawHash = rapid.SliceOfN(rapid.Byte(), 32, 32).Draw(t, label+".raw")
+		} else {
+			lk.HashOf = pick(label + ".hash")
+			lk.HashBy = rapid.SampledFrom([]string{"", lk.EnvBy}).Draw(t, label+".hashby")
+		}
+	}
+	return lk
+}
+
+// buildLike makes the value a Like describes, for a column whose key owner is owner.
+func buildLike(w *fix.World, owner string, lk Like) ([]byte, error) {
+	by := func(s string) []byte {
+		if s == "" {
+			return []byte(owner)
+		}
+		return []byte(s)
+	}
+	var x []byte
+	if len(lk.RawHash) > 0 {
+		x = append([]byte{0x7f}, lk.RawHash...)
+		for len(x) < 33 {
+			x = append(x, 0)
+		}
+		x = x[:33]
+	} else {
+		x = refIndex(w, by(lk.HashBy), lk.HashOf)
+	}
+	if len(lk.EnvOf) == 0 {
+		return append(x, lk.Tail...), nil
+	}
+	kind, form := fix.KindBlock, fix.FormContainer
+	if lk.EnvKind == fix.KindStruct {
+		kind = fix.KindStruct
+	}
+	if lk.Bare {
+		form = fix.FormRaw
+	}
+	env, err := w.Protect(by(lk.EnvBy), kind, form, append([]byte(nil), lk.EnvOf...), -1)
+	if err != nil {
+		return nil, fmt.Errorf("envelope for %s: %v", by(lk.EnvBy), err)
+	}
+	return append(x, env...), nil
+}
+
+// resolve builds the values that are only described in the case (Row.Like) with the fixture's keys and copies them
+// into the comparisons that refer to them (Cond.Ref). The envelope inside such a value is fresh on every call;
+// every oracle is invariant under that.
+func resolve(c Case) (Case, error) {
+	if c.resolved {
+		return c, nil
+	}
+	w := fix.TheWorld()
+	owner := string(ownerOf(c, w))
+	rows := append([]Row(nil), c.Rows...)
+	for i, r := range rows {
+		if r.Like == nil {
+			continue
+		}
+		x, err := buildLike(w, owner, *r.Like)
+		if err != nil {
+			return c, fmt.Errorf("row %d: %v", i+1, err)
+		}
+		rows[i].S = pgprog.Val{B: x}
+	}
+	c.Rows = rows
+	var fill func(k Cond) Cond
+	fill = func(k Cond) Cond {
+		if k.K == "s" && k.Ref > 0 && k.Ref <= len(rows) {
+			k.Val = rows[k.Ref-1].S
+		}
+		if len(k.Kids) > 0 {
+			kids := make([]Cond, len(k.Kids))
+			for i, kid := range k.Kids {
+				kids[i] = fill(kid)
+			}
+			k.Kids = kids
+		}
+		return k
+	}
+	c.Q.Where = fill(c.Q.Where)
+	if c.Q.On != nil {
+		on := fill(*c.Q.On)
+		c.Q.On = &on
+	}
+	c.resolved = true
+	return c, nil
+}
+
 func genCase(t *rapid.T, o genOpts) Case {
 	var c Case
 	c.Col = genCol(t)
@@ -247,11 +435,48 @@ func genCase(t *rapid.T, o genOpts) Case {
 	if !c.Q.Alias {
 		c.Q.Qualify = rapid.IntRange(0, 3).Draw(t, "qualify") == 3
 	}
-	c.Q.Join = rapid.IntRange(0, 4).Draw(t, "join") == 4
+	c.Q.Join = rapid.IntRange(0, 2).Draw(t, "join") == 2
 	// only with the same FROM in both SELECTs: the rewriter resolves columns of a sub-query against the outer
 	// statement's tables, a sub-query over other tables / aliases is passed on unchanged (not claimed as supported)
 	c.Q.Sub = !c.Q.Join && !c.Q.Alias && rapid.IntRange(0, 4).Draw(t, "sub") == 4
 	c.UConf = rapid.Bool().Draw(t, "uconf")
+	if c.Q.Join {
+		c.Q.UAlias = rapid.IntRange(0, 3).Draw(t, "ualias") == 3
+		c.Q.OnFlip = rapid.IntRange(0, 3).Draw(t, "onflip") == 3
+		c.Q.Comma = rapid.IntRange(0, 4).Draw(t, "comma") == 4
+		// the joined table has a column named s too
+		if rapid.IntRange(0, 3).Draw(t, "ucol") != 0 {
+			variants := []string{"same-client", "other-client", "other-client"}
+			if lt != pgsess.Int8 {
+				variants = append(variants, "plain", "plain-unconfigured-table")
+			}
+			switch v := rapid.SampledFrom(variants).Draw(t, "ucol.variant"); v {
+			case "plain", "plain-unconfigured-table":
+				c.UCol = &pgprog.ColSpec{Name: "s", Kind: plainKindOf(lt)}
+				c.UConf = v == "plain"
+			default:
+				uc := pgprog.ColSpec{Name: "s", Kind: pgprog.KSearch, DataType: c.Col.DataType, ClientID: c.Col.ClientID}
+				uc.Envelope = rapid.SampledFrom([]string{"", "acrastruct", "acrablock"}).Draw(t, "ucol.env")
+				tOwner := c.Col.ClientID
+				if tOwner == "" {
+					tOwner = "alice"
+				}
+				if v == "other-client" {
+					if tOwner == "alice" {
+						uc.ClientID = "bobby"
+					} else {
+						uc.ClientID = rapid.SampledFrom([]string{"", "alice"}).Draw(t, "ucol.client")
+					}
+				} else if tOwner == "alice" {
+					uc.ClientID = rapid.SampledFrom([]string{"", "alice"}).Draw(t, "ucol.client")
+				}
+				c.UCol = &uc
+				c.UConf = true
+			}
+		}
+	}
+	// stored plaintexts that look like stored searchable values (bytes-typed / untyped columns can hold them)
+	likeCase := lt == pgsess.Bytea && rapid.IntRange(0, 2).Draw(t, "like") == 2
 	// ---- stored plaintexts
 	npool := rapid.IntRange(1, 3).Draw(t, "npool")
 	var pool []pgprog.Val
@@ -265,8 +490,14 @@ func genCase(t *rapid.T, o genOpts) Case {
 		if !isInt(lt) {
 			kinds = append(kinds, "empty", "long")
 		}
+		if likeCase {
+			kinds = append(kinds, "like", "like", "like")
+		}
 		var v pgprog.Val
+		var like *Like
 		switch rapid.SampledFrom(kinds).Draw(t, l+".kind") {
+		case "like":
+			like = genLike(t, c, lt, pool, l)
 		case "pool":
 			v = pool[rapid.IntRange(0, len(pool)-1).Draw(t, l+".pick")]
 		case "prefix":
@@ -284,7 +515,7 @@ func genCase(t *rapid.T, o genOpts) Case {
 				v = pgprog.Val{Null: true}
 			}
 		}
-		r := Row{S: v, P: rapid.SampledFrom(plainWords).Draw(t, l+".p"), N: rapid.IntRange(0, 3).Draw(t, l+".n")}
+		r := Row{S: v, Like: like, P: rapid.SampledFrom(plainWords).Draw(t, l+".p"), N: rapid.IntRange(0, 3).Draw(t, l+".n")}
 		if !o.session {
 			r.W = rapid.SampledFrom(writerNames).Draw(t, l+".w")
 		}
@@ -293,27 +524,93 @@ func genCase(t *rapid.T, o genOpts) Case {
 	if c.Q.Join {
 		nu := rapid.IntRange(1, 5).Draw(t, "nu")
 		for i := 0; i < nu; i++ {
-			c.U = append(c.U, URow{Ref: rapid.IntRange(1, nrows+1).Draw(t, fmt.Sprintf("u%d.ref", i)), Tag: rapid.SampledFrom(plainWords).Draw(t, fmt.Sprintf("u%d.tag", i))})
+			l := fmt.Sprintf("u%d", i)
+			u := URow{Ref: rapid.IntRange(1, nrows+1).Draw(t, l+".ref"), Tag: rapid.SampledFrom(plainWords).Draw(t, l+".tag")}
+			if c.UCol != nil {
+				// values of u.s: mostly those of t.s, so that equal plaintexts meet under different settings
+				var v pgprog.Val
+				kinds := []string{"of-t", "of-t", "of-t", "pool", "prefix", "fresh", "null"}
+				if !isInt(lt) {
+					kinds = append(kinds, "empty")
+				}
+				switch rapid.SampledFrom(kinds).Draw(t, l+".kind") {
+				case "of-t":
+					r := c.Rows[rapid.IntRange(0, nrows-1).Draw(t, l+".row")]
+					v = r.S
+					if r.Like != nil || r.S.Null {
+						v = pool[0]
+					}
+				case "pool":
+					v = pool[rapid.IntRange(0, len(pool)-1).Draw(t, l+".pick")]
+				case "prefix":
+					v = prefixOf(t, lt, pool[rapid.IntRange(0, len(pool)-1).Draw(t, l+".pick")], l)
+				case "fresh":
+					v = genBase(t, lt, l)
+				case "empty":
+					v = pgprog.Val{B: []byte{}}
+				case "null":
+					if hasNot {
+						v = pool[0]
+					} else {
+						v = pgprog.Val{Null: true}
+					}
+				}
+				u.S = &v
+				if !o.session {
+					u.W = rapid.SampledFrom(writerNames).Draw(t, l+".w")
+				}
+			}
+			c.U = append(c.U, u)
 		}
 	}
 	// ---- the condition
-	scmp := func(label string) Cond {
-		k := Cond{K: "s"}
+	var likeRows []int
+	for i, r := range c.Rows {
+		if r.Like != nil {
+			likeRows = append(likeRows, i)
+		}
+	}
+	scmpOn := func(label, tab string) Cond {
+		k := Cond{K: "s", Tab: tab}
 		probes := []string{"present", "present", "present", "present", "absent", "prefix", "prefix"}
 		if !isInt(lt) {
 			probes = append(probes, "empty")
 		}
+		if len(likeRows) > 0 && tab == "" {
+			probes = append(probes, "like", "like", "like", "like", "like", "like", "spliced-plaintext", "spliced-plaintext", "spliced-plaintext", "spliced-plaintext")
+		}
 		k.Probe = rapid.SampledFrom(probes).Draw(t, label+".probe")
 		var stored []pgprog.Val
-		for _, r := range c.Rows {
-			if !r.S.Null {
-				stored = append(stored, r.S)
+		if tab == "u" {
+			for _, u := range c.U {
+				if u.S != nil && !u.S.Null {
+					stored = append(stored, *u.S)
+				}
+			}
+		} else {
+			for _, r := range c.Rows {
+				if !r.S.Null && r.Like == nil {
+					stored = append(stored, r.S)
+				}
 			}
 		}
 		if len(stored) == 0 {
 			stored = pool
 		}
 		switch k.Probe {
+		case "like":
+			// exactly the value that was written (built when the case is checked)
+			k.Ref = likeRows[rapid.IntRange(0, len(likeRows)-1).Draw(t, label+".pick")] + 1
+		case "spliced-plaintext":
+			// the plaintext whose index the value starts with / that its envelope holds
+			lk := c.Rows[likeRows[rapid.IntRange(0, len(likeRows)-1).Draw(t, label+".pick")]].Like
+			k.Val = pgprog.Val{B: append([]byte{}, lk.EnvOf...)}
+			if len(lk.HashOf) > 0 && (len(lk.EnvOf) == 0 || rapid.IntRange(0, 2).Draw(t, label+".which") != 0) {
+				k.Val = pgprog.Val{B: append([]byte{}, lk.HashOf...)}
+			}
+			if len(k.Val.B) == 0 {
+				k.Val = pool[0]
+			}
 		case "present":
 			k.Val = stored[rapid.IntRange(0, len(stored)-1).Draw(t, label+".pick")]
 		case "absent":
@@ -338,6 +635,28 @@ func genCase(t *rapid.T, o genOpts) Case {
 		k.Form = rapid.SampledFrom(forms).Draw(t, label+".form")
 		k.Spell = rapid.IntRange(0, 3).Draw(t, label+".spell")
 		return k
+	}
+	// which table's column s the comparisons are on: with a same-named column in u the second comparison of a
+	// clause is mostly on the other table than the first
+	firstTab := ""
+	if c.UCol != nil && rapid.Bool().Draw(t, "tab0") {
+		firstTab = "u"
+	}
+	scmp := func(label string) Cond {
+		tab := ""
+		if c.UCol != nil {
+			switch {
+			case label == "c0":
+				tab = firstTab
+			case rapid.IntRange(0, 3).Draw(t, label+".tab") != 0:
+				if firstTab == "" {
+					tab = "u"
+				}
+			default:
+				tab = firstTab
+			}
+		}
+		return scmpOn(label, tab)
 	}
 	plain := func(label string) Cond {
 		k := Cond{K: "plain"}
@@ -383,6 +702,24 @@ func genCase(t *rapid.T, o genOpts) Case {
 		c.Q.Where = Cond{K: "and", Kids: []Cond{plain("p0"), {K: "or", Kids: []Cond{scmp("c0"), scmp("c1")}}}}
 	case "not-and":
 		c.Q.Where = Cond{K: "not", Kids: []Cond{{K: "and", Kids: []Cond{scmp("c0"), plain("p0")}}}}
+	}
+	if c.Q.Join && rapid.IntRange(0, 2).Draw(t, "on") == 0 {
+		// a search condition inside the ON clause (an inner join: it selects like the same condition in WHERE)
+		tab := ""
+		if c.UCol != nil && rapid.Bool().Draw(t, "on.tab") {
+			tab = "u"
+		}
+		k := scmpOn("on", tab)
+		c.Q.On = &k
+	}
+	if c.uSearch() && string(uOwnerOf(c)) == string(tOwnerName(c)) && rapid.IntRange(0, 3).Draw(t, "colcol") == 0 {
+		// the two searchable columns compared with one another (they share the key): in the ON clause or in WHERE
+		k := Cond{K: "ss", Neg: !hasNot && rapid.IntRange(0, 3).Draw(t, "colcol.neg") == 0, Flip: rapid.Bool().Draw(t, "colcol.flip")}
+		if rapid.Bool().Draw(t, "colcol.on") {
+			c.Q.On = &k
+		} else {
+			c.Q.Where = Cond{K: "and", Kids: []Cond{k, c.Q.Where}}
+		}
 	}
 	if o.session {
 		c.Q.Ext = rapid.Bool().Draw(t, "q.ext")
@@ -456,11 +793,29 @@ func evalCond(c Case, k Cond, j joined) tri {
 	switch k.K {
 	case "s":
 		v := c.Rows[j.row].S
+		if k.Tab == "u" {
+			if j.u < 0 || c.U[j.u].S == nil {
+				return unknown
+			}
+			v = *c.U[j.u].S
+		}
 		if v.Null || k.Val.Null {
 			return unknown
 		}
 		eq := bytes.Equal(v.B, k.Val.B)
 		if eq != k.Neg {
+			return yes
+		}
+		return no
+	case "ss":
+		if j.u < 0 || c.U[j.u].S == nil {
+			return unknown
+		}
+		a, b := c.Rows[j.row].S, *c.U[j.u].S
+		if a.Null || b.Null {
+			return unknown
+		}
+		if bytes.Equal(a.B, b.B) != k.Neg {
 			return yes
 		}
 		return no
@@ -518,6 +873,33 @@ func walkCond(k Cond, f func(Cond)) {
 	}
 }
 
+// walkConds visits the conditions of WHERE and of the ON clause.
+func walkConds(c Case, f func(Cond)) {
+	walkCond(c.Q.Where, f)
+	if c.Q.On != nil && c.Q.Join {
+		walkCond(*c.Q.On, f)
+	}
+}
+
+// columnValues: the non-NULL plaintexts of the column a comparison is on.
+func columnValues(c Case, tab string) [][]byte {
+	var out [][]byte
+	if tab == "u" {
+		for _, u := range c.U {
+			if u.S != nil && !u.S.Null {
+				out = append(out, u.S.B)
+			}
+		}
+		return out
+	}
+	for _, r := range c.Rows {
+		if !r.S.Null {
+			out = append(out, r.S.B)
+		}
+	}
+	return out
+}
+
 func hasNot(k Cond) bool {
 	found := false
 	walkCond(k, func(x Cond) { found = found || x.K == "not" })
@@ -546,7 +928,7 @@ func expect(c Case) (ids []int, dontCare map[int]bool, excluded int) {
 			dontCare[j.row+1] = true
 			continue
 		}
-		if evalCond(c, c.Q.Where, j) == yes {
+		if evalCond(c, c.Q.Where, j) == yes && (c.Q.On == nil || !c.Q.Join || evalCond(c, *c.Q.On, j) == yes) {
 			ids = append(ids, j.row+1)
 		} else {
 			excluded++
@@ -559,12 +941,12 @@ func expect(c Case) (ids []int, dontCare map[int]bool, excluded int) {
 // nontrivial: some searched value is present at least once AND at least one row is absent from the result.
 func nontrivial(c Case) bool {
 	present := false
-	walkCond(c.Q.Where, func(k Cond) {
-		if k.K != "s" {
+	walkConds(c, func(k Cond) {
+		if k.K != "s" || k.Val.Null {
 			return
 		}
-		for _, r := range c.Rows {
-			if !r.S.Null && !k.Val.Null && bytes.Equal(r.S.B, k.Val.B) {
+		for _, v := range columnValues(c, k.Tab) {
+			if bytes.Equal(v, k.Val.B) {
 				present = true
 			}
 		}
@@ -595,13 +977,88 @@ func classesOf(c Case, db string) []string {
 		cl = append(cl, "from:join")
 	}
 	if c.Q.Sub {
-		cl = append(cl, "mysql:condition-in-sub-query")
+		cl = append(cl, "condition-in-sub-query")
+	}
+	if c.Q.Join {
+		if c.Q.UAlias {
+			cl = append(cl, "join:joined-table-alias")
+		}
+		if c.Q.OnFlip {
+			cl = append(cl, "join:on-operands-flipped")
+		}
+		if c.Q.Comma {
+			cl = append(cl, "join:table-list")
+		}
+		switch {
+		case c.UCol == nil:
+			cl = append(cl, "join:no-same-named-column")
+		case c.uPlain() && c.UConf:
+			cl = append(cl, "join:same-named-column:plain")
+		case c.uPlain():
+			cl = append(cl, "join:same-named-column:plain-unconfigured-table")
+		case string(uOwnerOf(c)) == string(tOwnerName(c)):
+			cl = append(cl, "join:same-named-column:same-client")
+		default:
+			cl = append(cl, "join:same-named-column:other-client")
+		}
+		if c.uSearch() && c.UCol.Envelope != c.Col.Envelope {
+			cl = append(cl, "join:same-named-column:other-envelope")
+		}
+		var whereT, whereU, onT, onU bool
+		walkCond(c.Q.Where, func(k Cond) {
+			if k.K == "s" {
+				whereT, whereU = whereT || k.Tab == "", whereU || k.Tab == "u"
+			}
+		})
+		walkConds(c, func(k Cond) {
+			if k.K == "ss" {
+				cl = append(cl, "join:searchable-column-compared-with-searchable-column")
+			}
+		})
+		if c.Q.On != nil {
+			walkCond(*c.Q.On, func(k Cond) {
+				if k.K == "s" {
+					onT, onU = onT || k.Tab == "", onU || k.Tab == "u"
+				}
+			})
+			cl = append(cl, "join:search-condition-in-on")
+		}
+		if c.UCol != nil {
+			if whereT && whereU {
+				cl = append(cl, "join:both-columns-in-one-clause")
+				// which comes first in the text
+				first := ""
+				walkCond(c.Q.Where, func(k Cond) {
+					if k.K == "s" && first == "" {
+						first = "t"
+						if k.Tab == "u" {
+							first = "u"
+						}
+					}
+				})
+				cl = append(cl, "join:both-columns-in-one-clause:"+first+"-first")
+			}
+			if (onT && whereU) || (onU && whereT) {
+				cl = append(cl, "join:both-columns-across-on-and-where")
+			}
+			if (whereU || onU) && !(whereT || onT) {
+				cl = append(cl, "join:only-joined-table-column")
+			}
+		}
+	}
+	for _, r := range c.Rows {
+		if r.Like != nil {
+			cl = append(cl, "stored:looks-like-searchable-ciphertext", "stored:looks-like-searchable-ciphertext:"+r.Like.Shape)
+		}
 	}
 	cl = append(cl, "where:"+shapeOf(c.Q.Where))
-	walkCond(c.Q.Where, func(k Cond) {
+	walkConds(c, func(k Cond) {
 		switch k.K {
 		case "s":
 			cl = append(cl, "form:"+k.Form, "probe:"+k.Probe)
+			if k.Ref > 0 {
+				cl = append(cl, "searched:looks-like-searchable-ciphertext")
+			}
 			if k.Flip {
 				cl = append(cl, "order:value-left")
 			} else {
@@ -616,8 +1073,8 @@ func classesOf(c Case, db string) []string {
 				cl = append(cl, "op:=")
 			}
 			n := 0
-			for _, r := range c.Rows {
-				if !r.S.Null && bytes.Equal(r.S.B, k.Val.B) {
+			for _, v := range columnValues(c, k.Tab) {
+				if bytes.Equal(v, k.Val.B) {
 					n++
 				}
 			}
@@ -627,10 +1084,18 @@ func classesOf(c Case, db string) []string {
 			if n >= 1 && len(k.Val.B) == 0 {
 				cl = append(cl, "searched:empty-present")
 			}
-			for _, r := range c.Rows {
-				if !r.S.Null && len(r.S.B) > len(k.Val.B) && bytes.HasPrefix(r.S.B, k.Val.B) && len(k.Val.B) > 0 {
+			for _, v := range columnValues(c, k.Tab) {
+				if len(v) > len(k.Val.B) && bytes.HasPrefix(v, k.Val.B) && len(k.Val.B) > 0 {
 					cl = append(cl, "searched:is-prefix-of-stored")
 					break
+				}
+			}
+			if k.Tab == "u" && n >= 1 {
+				for _, v := range columnValues(c, "") {
+					if bytes.Equal(v, k.Val.B) {
+						cl = append(cl, "searched:present-in-both-tables")
+						break
+					}
 				}
 			}
 		case "plain":
@@ -677,6 +1142,8 @@ func shapeOf(k Cond) string {
 		return "s"
 	case "plain":
 		return "p"
+	case "ss":
+		return "s=s"
 	case "not":
 		return "not(" + shapeOf(k.Kids[0]) + ")"
 	}
@@ -722,17 +1189,49 @@ func containsMarker(hay, marker []byte) bool {
 // secretMarkers: the markers of every stored and searched value of the searchable column.
 func secretMarkers(c Case) [][]byte {
 	seen := map[string]bool{}
+	// what a plain column named s of the joined table holds, and what it is compared with, is in clear by design
+	var public [][]byte
+	if c.uPlain() {
+		for _, u := range c.U {
+			if u.S != nil && !u.S.Null {
+				public = append(public, u.S.B)
+			}
+		}
+		walkConds(c, func(k Cond) {
+			if k.K == "s" && k.Tab == "u" && !k.Val.Null {
+				public = append(public, k.Val.B)
+			}
+		})
+	}
+	isPublic := func(m []byte) bool {
+		for _, p := range public {
+			if bytes.Contains(p, m) {
+				return true
+			}
+		}
+		return false
+	}
 	var out [][]byte
 	add := func(v pgprog.Val) {
-		if m := pgprog.Marker(v); m != nil && !seen[string(m)] {
+		if m := pgprog.Marker(v); m != nil && !seen[string(m)] && !isPublic(m) {
 			seen[string(m)] = true
 			out = append(out, m)
 		}
 	}
 	for _, r := range c.Rows {
 		add(r.S)
+		if r.Like != nil {
+			// the plaintexts inside a value that looks like a stored searchable value are sealed in its envelope
+			add(pgprog.Val{B: r.Like.EnvOf})
+			add(pgprog.Val{B: r.Like.HashOf})
+		}
 	}
-	walkCond(c.Q.Where, func(k Cond) {
+	for _, u := range c.U {
+		if u.S != nil {
+			add(*u.S)
+		}
+	}
+	walkConds(c, func(k Cond) {
 		if k.K == "s" {
 			add(k.Val)
 		}
@@ -747,8 +1246,16 @@ func clearInts(c Case, text []byte) []byte {
 	}
 	var found []byte
 	digit := func(b byte) bool { return b >= '0' && b <= '9' }
-	walkCond(c.Q.Where, func(k Cond) {
-		if k.K != "s" || k.Val.Null || len(k.Val.B) < 9 || found != nil {
+	public := map[string]bool{}
+	if c.uPlain() {
+		walkConds(c, func(k Cond) {
+			if k.K == "s" && k.Tab == "u" {
+				public[string(bytes.TrimPrefix(k.Val.B, []byte("-")))] = true
+			}
+		})
+	}
+	walkConds(c, func(k Cond) {
+		if k.K != "s" || k.Val.Null || len(k.Val.B) < 9 || found != nil || public[string(bytes.TrimPrefix(k.Val.B, []byte("-")))] {
 			return
 		}
 		v := bytes.TrimPrefix(k.Val.B, []byte("-"))
@@ -786,8 +1293,14 @@ func sameIDs(a, b []int) bool {
 // class is excluded whatever else the case holds), otherwise the first one in the list. Only call it when a
 // violation is being recorded (R.IsKnown counts exclusions).
 func condSig(kind string, c Case, db string) string {
-	var flip, pcast, emptyVal, hexLit, zeroX, hexNum bool
-	walkCond(c.Q.Where, func(k Cond) {
+	var flip, pcast, emptyVal, hexLit, zeroX, hexNum, like, inOn bool
+	for _, r := range c.Rows {
+		like = like || r.Like != nil
+	}
+	if c.Q.On != nil && c.Q.Join {
+		walkCond(*c.Q.On, func(k Cond) { inOn = inOn || k.K == "s" })
+	}
+	walkConds(c, func(k Cond) {
 		if k.K != "s" {
 			return
 		}
@@ -805,15 +1318,6 @@ func condSig(kind string, c Case, db string) string {
 	if c.Col.ClientID != "" && c.Col.ClientID != "alice" {
 		feats = append(feats, "column-client-differs-from-connection")
 	}
-	if hexLit {
-		feats = append(feats, "hex-string-literal")
-	}
-	if zeroX {
-		feats = append(feats, "string-literal-starting-with-0x")
-	}
-	if hexNum {
-		feats = append(feats, "hex-number-literal")
-	}
 	if flip {
 		feats = append(feats, "searchable-column-as-right-operand")
 	}
@@ -822,6 +1326,29 @@ func condSig(kind string, c Case, db string) string {
 	}
 	if emptyVal {
 		feats = append(feats, "empty-search-value")
+	}
+	if c.UCol != nil && c.Q.Join {
+		feats = append(feats, "same-named-column-in-joined-table")
+	}
+	if like {
+		feats = append(feats, "stored-value-looks-like-searchable-ciphertext")
+	}
+	if inOn {
+		feats = append(feats, "search-condition-in-on-clause")
+	}
+	if c.Q.Sub && db != "mysql" {
+		feats = append(feats, "search-condition-in-sub-query")
+	}
+	// literal spellings last: the smallest case of any class is written with them (spelling 0 of a bytes value is
+	// X'..'), so they are weak evidence next to a feature that had to be drawn
+	if hexLit {
+		feats = append(feats, "hex-string-literal")
+	}
+	if zeroX {
+		feats = append(feats, "string-literal-starting-with-0x")
+	}
+	if hexNum {
+		feats = append(feats, "hex-number-literal")
 	}
 	// the symptom (kind) is left out for attributed classes: one root cause, one signature
 	for _, f := range feats {
@@ -875,6 +1402,14 @@ func TestReplay(t *testing.T) {
 				return vs
 			}
 			out, _ := CheckSession(c)
+			return out
+		},
+		"TestSearchSessionsMySQL": func(raw json.RawMessage) hx.Vs {
+			c, vs := decodeCase(raw)
+			if vs != nil {
+				return vs
+			}
+			out, _ := CheckSessionMySQL(c)
 			return out
 		},
 	})
